@@ -397,3 +397,187 @@ def struct_lines(defs, verdicts, facts):
         if m in verdicts:
             lines.append("504 0 0 0 0 0 0 0 0 - ; V %d ; %s ; 3" % (1 if verdicts[m] is None else 0, m))
     return lines, skipped
+
+
+# ----------------------------------------------------------------------------- enum family (C06)
+INT_TYPES = {"u8": (8, 0), "i8": (8, 1), "u16": (16, 0), "i16": (16, 1), "u32": (32, 0), "i32": (32, 1), "u64": (64, 0), "i64": (64, 1),
+             "usize": (64, 0), "isize": (64, 1), "u128": (128, 0), "i128": (128, 1)}
+ENUM_DERIVES = ["Contiguous", "CheckedBitPattern", "Zeroable", "NoUninit"]
+
+
+def int_bounds(t):
+    bits, signed = INT_TYPES[t]
+    return (-(1 << (bits - 1)), (1 << (bits - 1)) - 1) if signed else (0, (1 << bits) - 1)
+
+
+def literal(rnd, v, ty, allow_suffix=True):
+    """A Rust literal expression denoting v, in a randomly chosen syntactic form."""
+    neg = v < 0
+    a = -v if neg else v
+    forms = ["dec", "hex", "oct", "bin", "und"]
+    if allow_suffix:
+        forms.append("suf")
+    if ty == "u8" and 32 < a < 127 and not neg and chr(a) not in "'\\":
+        forms.append("byte")
+    f = rnd.choice(forms)
+    if f == "dec":
+        s = str(a)
+    elif f == "hex":
+        s = "0x%X" % a
+    elif f == "oct":
+        s = "0o%o" % a
+    elif f == "bin":
+        s = "0b" + bin(a)[2:]
+    elif f == "und":
+        d = str(a)
+        s = d[0] + "_" + d[1:] if len(d) > 1 else d + "_"
+    elif f == "suf":
+        s = "%d%s" % (a, ty)
+    else:
+        s = "b'%s'" % chr(a)
+    return ("-" + s) if neg else s
+
+
+def enum_family(tier, seed):
+    rnd = random.Random(seed * 104729 + 7)
+    n = 180 if tier == "quick" else 2500
+    defs = []
+    reprs = [(k, t) for k in ("int",) for t in INT_TYPES] * 3 + [("C", None), ("none", None)] + [("Cint", t) for t in ("u8", "i16", "u32", "i64")]
+    # corpus: the shapes the seeded changes of this kind need
+    corpus = [
+        ("int", "i8", [(None, 0), (None, 1), (None, 2)]), ("int", "i16", [("e", 0), (None, 1), ("e", 2)]),
+        ("int", "u8", [("e", 1), ("e", 9), ("e", 3)]), ("int", "u8", [("e", 3), ("e", 2), ("e", 1)]),
+        ("int", "i16", [("e", 1), (None, 2), ("e", -1), (None, 0)]), ("int", "u8", [("e", 5), (None, 6), (None, 7)]),
+        ("int", "u8", [("e", 7)]), ("int", "i32", [("e", -10), (None, -9), (None, -8)]), ("int", "u8", [("e", 1), ("e", 2)]),
+        ("C", None, [(None, 0), (None, 1)]), ("none", None, [(None, 0), (None, 1)]), ("Cint", "u8", [("e", 0), ("e", 2)]),
+        ("int", "u16", [("e", 65535), ("e", 65534)]), ("int", "i8", [("e", -128), (None, -127)]), ("int", "u8", [("e", 254), (None, 255)]),
+        ("int", "u64", [("e", 0), ("e", 1 << 40)]), ("int", "i128", [("e", -1), (None, 0), (None, 1)]),
+    ]
+    for (k, t, vs) in corpus:
+        defs.append(dict(rk=k, ty=t, variants=[dict(explicit=(e is not None), value=v, fields=[]) for (e, v) in vs]))
+    while len(defs) < n:
+        rk, ty = rnd.choice(reprs)
+        dty = ty or "isize"
+        lo, hi = int_bounds(dty)
+        if dty in ("u128", "i128"):
+            lo, hi = max(lo, -(1 << 100)), min(hi, 1 << 100)
+        nv = rnd.randint(1, 6)
+        base = rnd.choice([0, 0, 1, lo, hi - nv * 4, rnd.randint(max(lo, -50), min(hi - 30, 50))])
+        base = max(lo, min(base, hi - nv * 4))
+        vals = []
+        cur = base
+        for _ in range(nv):
+            vals.append(cur)
+            cur += rnd.choice([1, 1, 1, 2, 3, 4])
+        order = rnd.choice(["asc", "desc", "shuf"])
+        if order == "desc":
+            vals.reverse()
+        elif order == "shuf":
+            rnd.shuffle(vals)
+        variants = []
+        prev = None
+        for v in vals:
+            implicit_ok = (prev is None and v == 0) or (prev is not None and v == prev + 1)
+            explicit = not (implicit_ok and rnd.random() < 0.6)
+            fields = []
+            variants.append(dict(explicit=explicit, value=v, fields=fields))
+            prev = v
+        if rnd.random() < 0.15 and rk != "none":
+            # some enums with fields (Zeroable's zero-variant rule; the others must refuse)
+            for vv in variants:
+                if rnd.random() < 0.6:
+                    vv["fields"] = [rnd.choice([0, 2, 11, 13, 22]) for _ in range(rnd.randint(1, 2))]
+        defs.append(dict(rk=rk, ty=ty, variants=variants))
+    return defs
+
+
+def render_enum(d, derive, rnd):
+    attrs = {"int": "#[repr(%s)]" % d["ty"], "C": "#[repr(C)]", "none": "", "Cint": "#[repr(C, %s)]" % d["ty"]}[d["rk"]]
+    dty = d["ty"] or "isize"
+    ders = ["Clone", "Copy"] + (["bytemuck::" + derive] if derive else [])
+    vs = []
+    for k, v in enumerate(d["variants"]):
+        body = ""
+        if v["fields"]:
+            body = "(%s)" % ", ".join(LEAVES[f][0] for f in v["fields"])
+        disc = (" = " + literal(rnd, v["value"], dty)) if v["explicit"] else ""
+        vs.append("V%d%s%s" % (k, body, disc))
+    return "#[derive(%s)]\n%s\npub enum E { %s }" % (", ".join(ders), attrs, ", ".join(vs))
+
+
+def enum_modules(defs, seed):
+    mods = []
+    for i, d in enumerate(defs):
+        rnd = random.Random(seed * 31 + i)
+        fieldless = not any(v["fields"] for v in d["variants"])
+        dty = d["ty"] or "isize"
+        bits, signed = INT_TYPES[dty]
+        txt = render_enum(d, None, random.Random(seed * 31 + i))
+        if fieldless:
+            facts = "pub fn facts() -> String { let v: Vec<i128> = vec![%s]; format!(\"{:?}\", v) }" % ", ".join("E::V%d as i128" % k for k in range(len(d["variants"])))
+        else:
+            facts = "pub fn facts() -> String { String::from(\"F\") }"
+        mods.append(("e%d_plain" % i, txt + "\n" + facts))
+        for der in ENUM_DERIVES:
+            t2 = render_enum(d, der, random.Random(seed * 31 + i))
+            if der == "Contiguous":
+                f2 = "pub fn facts() -> String { use bytemuck::Contiguous; format!(\"{} {}\", <E as Contiguous>::MIN_VALUE as i128, <E as Contiguous>::MAX_VALUE as i128) }"
+            elif der == "CheckedBitPattern" and fieldless and d["rk"] == "int":
+                vals = sorted(set(x for v in d["variants"] for x in (v["value"] - 1, v["value"], v["value"] + 1)) | {0, -1, 1} | set(int_bounds(dty)))
+                lo, hi = int_bounds(dty)
+                vals = [x for x in vals if lo <= x <= hi]
+                probes = ", ".join("%d as %s" % (x, dty) if x >= 0 else "(%d) as %s" % (x, dty) for x in vals)
+                exh = ("let c: i64 = (%s::MIN..=%s::MAX).filter(|b| <E as CheckedBitPattern>::is_valid_bit_pattern(b)).count() as i64;" % (dty, dty)) if bits <= 16 else "let c: i64 = -1;"
+                f2 = ("pub fn facts() -> String { use bytemuck::checked::CheckedBitPattern; %s let p: Vec<%s> = vec![%s]; "
+                      "let r: Vec<String> = p.iter().map(|b| format!(\"{}:{}\", *b as i128, <E as CheckedBitPattern>::is_valid_bit_pattern(b) as u8)).collect(); format!(\"{} {}\", c, r.join(\",\")) }" % (exh, dty, probes))
+            else:
+                f2 = "pub fn facts() -> String { String::from(\"ok\") }"
+            mods.append(("e%d_%s" % (i, der), t2 + "\n" + f2))
+    return mods
+
+
+def enum_lines(defs, verdicts, facts):
+    lines = []
+    skipped = 0
+    rk_code = {"none": 0, "C": 1, "int": 2, "Cint": 3}
+    for i, d in enumerate(defs):
+        pm = "e%d_plain" % i
+        if verdicts.get(pm, "x") is not None or pm not in facts:
+            skipped += 1
+            continue
+        fieldless = not any(v["fields"] for v in d["variants"])
+        dty = d["ty"] or "isize"
+        bits, signed = INT_TYPES[dty]
+        comp = [int(x) for x in facts[pm].strip("[]").split(",") if x.strip()] if fieldless else []
+        vdesc = []
+        for v in d["variants"]:
+            fz = 1 if all(LEAVES[f][4] for f in v["fields"]) else 0
+            vdesc += [1 if v["explicit"] else 0, v["value"] if v["explicit"] else 0, 1 if v["fields"] else 0, fz]
+        for di, der in enumerate(ENUM_DERIVES):
+            mod = "e%d_%s" % (i, der)
+            if mod not in verdicts:
+                continue
+            if der == "CheckedBitPattern" and not fieldless:
+                continue   # enums with fields under CheckedBitPattern are the C08 family's
+            obs = 1 if verdicts[mod] is None else 0
+            v = [obs, di, rk_code[d["rk"]], bits, signed, len(d["variants"])] + vdesc + [len(comp)] + comp
+            lines.append("511 0 0 0 0 0 0 0 %d - ; V %s ; %s ; 3" % (i, " ".join(str(x) for x in v), mod))
+            if obs and der == "Contiguous" and mod in facts and comp:
+                mn, mx = facts[mod].split()
+                lines.append("513 0 0 0 0 0 0 0 %d - ; V %s %s %d %s ; %s ; 3" % (i, mn, mx, len(comp), " ".join(str(x) for x in comp), mod))
+            if obs and der == "CheckedBitPattern" and mod in facts and comp and " " in facts[mod]:
+                c, rest = facts[mod].split(" ", 1)
+                pr = [p.split(":") for p in rest.split(",") if ":" in p]
+                v2 = [bits, signed, int(c), len(comp)] + comp + [len(pr)] + [int(x) for p in pr for x in p]
+                lines.append("514 0 0 0 0 0 0 0 %d - ; V %s ; %s ; 3" % (i, " ".join(str(x) for x in v2), mod))
+    return lines, skipped
+
+
+def enum_set(tier, seed):
+    defs = enum_family(tier, seed)
+    mods = enum_modules(defs, seed)
+    v, f, err = compile_verdicts("enum-" + tier, PRELUDE, mods)
+    if err:
+        return [], {}, err
+    lines, skipped = enum_lines(defs, v, f)
+    return lines, {"definitions": len(defs), "modules": len(mods), "invalid_definitions_skipped": skipped}, None
